@@ -59,6 +59,11 @@ func (fr *frame) get(key ssa.Value) value {
 }
 
 // globalAddr returns the cell of a package-level variable, initialising its package lazily.
+// body-less functions bound with //go:linkname: the target's real body is executed.
+var linknameFuncs = map[string][2]string{
+	"github.com/saucelabs/forwarder.isDomainName": {"net", "isDomainName"},
+}
+
 // linknamed package variables (//go:linkname local target): the local name aliases the target's storage.
 var linknameVars = map[string][2]string{
 	"github.com/saucelabs/forwarder/internal/martian.h2ErrClosedBody": {"golang.org/x/net/http2", "errClosedBody"},
@@ -491,8 +496,12 @@ func (in *Exec) callSSAOpts(caller *frame, fn *ssa.Function, args []value, env [
 			return nil
 		}
 		if fn.Blocks == nil {
-			if g := x.genericIntrinsic(fn); g != nil {
-				return g(in, caller, args)
+			if tgt, ok := linknameFuncs[name]; ok {
+				if p := x.Prog.ImportedPackage(tgt[0]); p != nil {
+					if tf := p.Func(tgt[1]); tf != nil && tf.Blocks != nil {
+						return in.callSSA(caller, tf, args, nil)
+					}
+				}
 			}
 			in.inconclusive("no code for function " + name)
 		}
